@@ -29,3 +29,41 @@ V_ENSURES(V_IMP(V_OLD(g_evq->len) > 0, g_mod->stats.recv_msgs == V_OLD(g_mod->st
 /* the delivered batch is released exactly once, after the handler returned */
 V_ENSURES(g.qfree_calls == V_OLD(g.qfree_calls) + 1 && g.qfree_arg == g_evq)                                                                /*@C04.batch-released-exactly-once*/
 ;
+
+/* ---- sending: one recipient (tell_if) ---------------------------------------------------------------------------------- */
+V_CONTRACT
+void *m_mem_new(size_t size, m_ref_dtor dtor)
+V_REQUIRES(size == sizeof(ps_priv_t))      /* the only allocation in this unit: a message copy (constant size keeps the fresh object concrete) */
+V_ASSIGNS(g.memnew_calls, g.memnew_ret)
+V_ENSURES(g.memnew_calls == V_OLD(g.memnew_calls) + 1 && g.memnew_ret == V_RET && (V_RET == NULL ? g_alloc_fails : (!g_alloc_fails && __CPROVER_is_fresh(V_RET, sizeof(ps_priv_t)))))
+;
+/* the recipient's message pipe: a write of one pointer either is accepted (appended at the tail of the ghost pipe) or fails (pipe full) */
+V_CONTRACT
+ssize_t v_write(int fd, const void *buf, size_t n)
+V_REQUIRES(buf != NULL && n == sizeof(void *) && V_R_OK(buf, sizeof(void *)))
+V_ASSIGNS(g.write_calls, g.write_fd, g.write_ptr, g.pipe_len, g_errno)
+V_ENSURES(g.write_calls == V_OLD(g.write_calls) + 1 && g.write_fd == fd && g.write_ptr == *(void *const *)buf)
+V_ENSURES(g_pipe_full ? (V_RET == -1 && g.pipe_len == V_OLD(g.pipe_len)) : (V_RET == (ssize_t)sizeof(void *) && g.pipe_len == V_OLD(g.pipe_len) + 1))
+;
+
+#define V_TELL_ELIGIBLE  ((g_mod->state & (M_MOD_RUNNING | M_MOD_PAUSED)) != 0 && (g_msg->msg.topic == NULL || key != NULL))
+V_CONTRACT
+static int tell_if(void *data, const char *key, void *value)
+V_REQUIRES(v_base_ok() && data == (void *)g_msg && V_RW_OK(g_msg, sizeof(ps_priv_t)) && value == (void *)g_mod && V_RW_OK(g_mod, sizeof(m_mod_t)) && v_state_valid(g_mod->state))
+V_REQUIRES(g_mod->name != NULL && g.pipe_len < ((size_t)1 << 60))
+V_ASSIGNS(g.memnew_calls, g.memnew_ret, g.ref_calls, g.ref_arg, g.unref_calls, g.unref_arg, g.unref_arg_prev, g.write_calls, g.write_fd, g.write_ptr, g.pipe_len, g_errno)
+V_ENSURES(V_RET == 0)
+/* handed to exactly the eligible recipient, to nobody else: a module that is not RUNNING/PAUSED, or (for a publish) holds no matching
+ * subscription, gets nothing -- no copy is even made */
+V_ENSURES(V_IMP(!V_TELL_ELIGIBLE, g.memnew_calls == V_OLD(g.memnew_calls) && g.write_calls == V_OLD(g.write_calls) && g.pipe_len == V_OLD(g.pipe_len)
+                && g.ref_calls == V_OLD(g.ref_calls)))                                                                                       /*@C02.non-eligible-module-gets-nothing*/
+/* eligible: exactly one copy, at most once; it carries the sender, topic, payload pointer and flags the sender supplied and the
+ * matched subscription; it keeps the sender alive; it is appended at the tail of the recipient's pipe */
+V_ENSURES(V_IMP(V_TELL_ELIGIBLE, g.memnew_calls == V_OLD(g.memnew_calls) + 1))                                                             /*@C02.exactly-one-copy-per-eligible-recipient*/
+V_ENSURES(V_IMP(V_TELL_ELIGIBLE && !g_alloc_fails, g.write_calls == V_OLD(g.write_calls) + 1 && g.write_fd == g_mod->pubsub_fd[1] && g.write_ptr == g.memnew_ret
+                && g.pipe_len == V_OLD(g.pipe_len) + (g_pipe_full ? 0 : 1)))                                                                /*@C08.appended-at-the-tail-of-the-recipients-pipe*/
+V_ENSURES(V_IMP(V_TELL_ELIGIBLE && !g_alloc_fails, g.ref_calls == V_OLD(g.ref_calls) + 1 && g.ref_arg == (void *)g_msg->msg.sender))           /*@C04.in-flight-message-keeps-its-sender-alive*/
+/* pipe full: the COPY is released exactly once; the caller's message object (which is not reference counted) is left alone */
+V_ENSURES(V_IMP(V_TELL_ELIGIBLE && !g_alloc_fails && g_pipe_full, g.unref_calls == V_OLD(g.unref_calls) + 1 && g.unref_arg == g.memnew_ret))  /*@C04.undeliverable-copy-released-not-the-callers-message*/
+V_ENSURES(V_IMP(!(V_TELL_ELIGIBLE && !g_alloc_fails && g_pipe_full), g.unref_calls == V_OLD(g.unref_calls)))
+;
